@@ -584,6 +584,53 @@ func runC18(c *engine.Ctx) {
 	// ---- R13 accepted enumerations are the ones the consumers compare with ----
 	checkValidationExact(c, "R13")
 	checkLegacyConversion(c, "R14")
+
+	// ---- R15 the textual writers of a bandwidth quantity return the literal its parser accepted ----
+	c.Rule("R15", "BandwidthQuantity.String and MarshalJSON derive their text from the stored literal (field s) only, and UnmarshalString stores its argument there on the success path: the parser truncates fractional quantities to bytes, so no rendering of the byte count re-parses to the same value for every accepted literal")
+	if sf := field(c, "pkg/config/types", "BandwidthQuantity", "s"); sf != nil {
+		iF := field(c, "pkg/config/types", "BandwidthQuantity", "i")
+		k := 0
+		for _, name := range []string{"String", "MarshalJSON"} {
+			f := fn(c, "pkg/config/types.BandwidthQuantity."+name)
+			if f == nil {
+				continue
+			}
+			engine.ForEachInstr(f, func(in ssa.Instruction) {
+				r, ok := in.(*ssa.Return)
+				if !ok {
+					return
+				}
+				k++
+				src := engine.Provenance(r.Results[0], engine.ProvOpts{})
+				c.Check(src.HasField(sf) && !src.HasField(iF), "pkg/config/types.BandwidthQuantity."+name+">literal", in.Pos(), 1, []string{src.Summary()},
+					"the text written is the stored literal, not a rendering of the byte count")
+			})
+		}
+		if uf := fn(c, "pkg/config/types.BandwidthQuantity.UnmarshalString"); uf != nil {
+			k++
+			c.AllPaths("pkg/config/types.BandwidthQuantity.UnmarshalString>stores-literal", engine.PathCheck{Fn: uf, Sink: engine.IsReturn,
+				Event: func(in ssa.Instruction) string {
+					if st, ok := in.(*ssa.Store); ok {
+						lf, _ := engine.LoadedField(st.Addr)
+						if lf == sf && engine.Provenance(st.Val, engine.ProvOpts{}).HasParam("s") {
+							return "stored"
+						}
+						if lf == iF {
+							return "bytes"
+						}
+					}
+					return ""
+				},
+				Pred: func(st *engine.PathState) string {
+					r := st.Sink.(*ssa.Return)
+					if engine.IsNilConst(st.Resolve(r.Results[0])) && st.HasEvent("bytes") && !st.HasEvent("stored") {
+						return "UnmarshalString sets the byte count without recording the literal it parsed"
+					}
+					return ""
+				}}, "success ⇒ literal stored")
+		}
+		c.Floor(k, 3)
+	}
 }
 
 // checkFlagTargets (R9): "the same configuration given through command-line flags yields identical structures". Every
